@@ -15,7 +15,7 @@ EXPLANATION = (
     "built without that dependence cannot be symmetric) and on f64::is_nan of the weight (an unweighted edge must become 1, not NaN).  "
     "R-C09-3 degree_centrality depends on get_node_degree and the node count and the division is guarded by n <= 1.  R-C09-4 the "
     "self-loop correction of get_node_degree / get_node_weighted_degree depends on specs.directed inside the function itself "
-    "(get_edges_for_node lists a directed self-loop twice and an undirected one once, so one correction cannot fit both).  R-C09-9 the self-loop correction is a count / sum over the node's edges, never a truth value turned into a number.  R-C09-10/11: get_density's return definitions are 0, m/(n(n-1)) (directed) or 2m/(n(n-1)), and degree_centrality's products / quotients are 1/(n-1), degree*scale or degree/(n-1), as expressions over the counts.  NOT decided: "
+    "(get_edges_for_node lists a directed self-loop twice and an undirected one once, so one correction cannot fit both).  R-C09-9 the self-loop correction is a count / sum over the node's edges, never a truth value turned into a number.  R-C09-10/11: get_density's return definitions are 0, m/(n(n-1)) (directed) or 2m/(n(n-1)), and degree_centrality's products / quotients are 1/(n-1), degree*scale or degree/(n-1), as expressions over the counts.  R-C09-12: no unique / dedup / set keyed by an Edge under graph::.  R-C09-13: the degree maps enumerate the node list.  NOT decided: "
     "the handshake identities themselves and every numeric value."
 )
 TRUSTED = ["rustc MIR construction", "over-approximated dependence (absence is definite)", "sprs TriMat::from_triplets/to_csr semantics"]
@@ -105,6 +105,67 @@ def selfloop_term_counts_every_loop(ctx, prog, flows, rid, consequence):
                             "the self-loop term of %s %s: a node with k parallel self-loops gets the correction of one, %s" % (sfx.split("::")[-1], ("is a truth value turned into a number (%s)" % ", ".join(sorted(set(from_bool)))) if from_bool else "is not computed by counting or summing the node's edges", consequence), loc_str(s_.span))
     ctx.floor(rid, "selfloop_terms", n, 2)
     return n
+
+def selfloop_predicate(ctx, prog, flows, rid, consequence):
+    """the edges that get the self-loop correction are exactly those whose BOTH endpoints are the node: the filter's
+    only way to return true is `e.u == node && e.v == node` (an `||`, a `!=` or a single endpoint would also count the
+    node's ordinary edges)"""
+    from engines import predicate_true_paths
+
+    ctx.rule(rid, "the self-loop filter of the degree functions is true exactly for e.u == node and e.v == node")
+    n = 0
+    for sfx in ("degree::Graph::get_node_degree", "degree::Graph::get_node_weighted_degree"):
+        b = prog.one(sfx)
+        for cb in prog.closures_of(b.path):
+            if cb.local_ty(0) != "bool":
+                continue
+            cf = flows.of(cb)
+            paths = predicate_true_paths(cf, cb)
+            if paths is None:
+                ctx.undecided(rid, "filter|" + sfx.split("::")[-1], "the self-loop filter of %s is not a conjunction of equality tests; its truth table is not decided" % sfx.split("::")[-1], loc_str(cb.span))
+                continue
+            # only filters that compare an edge's endpoints
+            if not any(any(o.endswith(".u") or o.endswith(".v") for (_r, _p, ops) in pth for o in ops) for pth in paths):
+                continue
+            n += 1
+            ok = len(paths) == 1
+            if ok:
+                lits = paths[0]
+                ends = sorted(next((o.split(".")[-1] for o in ops if o.endswith(".u") or o.endswith(".v")), "?") for (rel, pol, ops) in lits)
+                others = {frozenset(o for o in ops if not (o.endswith(".u") or o.endswith(".v"))) for (rel, pol, ops) in lits}
+                ok = all(rel == "eq" and pol for (rel, pol, ops) in lits) and ends == ["u", "v"] and len(others) == 1
+            ctx.require(ok, rid, "filter|" + sfx.split("::")[-1], "the filter in %s keeps e iff e.u == node && e.v == node" % sfx.split("::")[-1],
+                        "the self-loop filter of %s returns true under %s, not exactly under e.u == node && e.v == node: edges that are not self-loops get the correction too (or self-loops do not), %s" % (sfx.split("::")[-1], [sorted(("%s%s(%s)" % ("" if pol else "!", rel, ",".join(sorted(ops)))) for (rel, pol, ops) in pth) for pth in paths], consequence), loc_str(cb.span))
+    ctx.counters["selfloop_filters"] = n
+
+
+def degree_maps_keyed_by_node_list(ctx, prog, flows, rid, consequence):
+    """shared by C09 and C12: the `get_*degree_for_all_nodes` maps have one entry per NODE.  Their key set therefore
+    comes from the node list (get_all_nodes / nodes_vec); a map accumulated over the edges has entries only for nodes
+    that some edge touches."""
+    ctx.rule(rid, "every degree map `get_*_for_all_nodes` takes its keys from the node list, so isolated nodes are listed (with 0)")
+    n = 0
+    for p in sorted(prog.bodies):
+        b = prog.bodies[p]
+        if b.kind == "closure" or not b.short.startswith("graph::degree::") or not b.short.endswith("_for_all_nodes"):
+            continue
+        n += 1
+        sl = flows.slice(b.path, [L(0)], up=False, down="clos", data_only=True)
+        cal, fields = set(), set()
+        for (bp, nd) in sl:
+            if nd[0] == "CALL":
+                t = prog.bodies[bp].blocks[nd[1]].term
+                if t.callee:
+                    cal.add(t.callee.short.split("::")[-1])
+            elif nd[0] == "SRC":
+                f_ = field_of(("P", nd[1], nd[2]))
+                if f_:
+                    fields.add(f_)
+        from_nodes = bool(cal & {"get_all_nodes", "get_all_node_names"}) or bool(fields & {"nodes_vec", "nodes_map"}) or any(c.endswith("_for_all_nodes") for c in cal)
+        ctx.require(from_nodes, rid, "keys|" + b.short, "%s enumerates the node list" % b.short.split("::")[-1],
+                    "%s builds its map without enumerating the node list (it reads %s): " % (b.short, sorted((cal & {"get_all_edges", "get_edges_for_node"}) | (fields & {"edges", "edges_map", "successors", "predecessors"})) or "no node store") + consequence, loc_str(b.span))
+    ctx.floor(rid, "degree_maps", n, 4)
+
 
 def formula_rules(ctx, prog, flows):
     """R-C09-10 / R-C09-11: "the density of a single-edge graph is m/(n(n-1)), doubled when undirected" and "for n >= 2
@@ -296,6 +357,37 @@ def run(ctx):
             # the mirror push is on the undirected, non-loop path
             pushes = [c for c in m.calls() if c.callee and c.callee.short.endswith("Vec::push")]
             mir_ = [c for c in pushes if any(isinstance(te, tuple) and te[0] == "place" and te[1].endswith("specs.directed") and v is False for (te, v, a) in controlling_atoms(mf, c.bb))]
+            # ... and ONLY there: with the `specs.directed == false` edges deleted no mirror push is reachable (a mirrored
+            # entry on a directed graph makes the matrix symmetric), and with the `u != v` edge deleted neither (a
+            # self-loop mirrored onto itself is summed twice by the triplet-to-CSR conversion)
+            from guard import Guards as _G2
+
+            sw_ = _G2(prog, flows).spec_switches(m, "directed")
+            und_edges = [(bb_, succ_[False]) for (bb_, succ_) in sw_ if succ_.get(False) is not None]
+            if mir_ and und_edges:
+                reach_ = m.reach_avoiding_edges(und_edges, 0)
+                leak_ = [c for c in mir_ if c.bb in reach_]
+                ctx.require(not leak_, "R-C09-2", "mirror-only-undirected", "no mirror push is reachable on a directed graph", "a mirror triplet is pushed on a path on which specs.directed is true (%s): the adjacency matrix of a directed graph becomes symmetric" % loc_str(leak_[0].span) if leak_ else "", loc_str(leak_[0].span) if leak_ else loc_str(m.span))
+                ne_edges = []
+                for blk_ in m.normal_blocks():
+                    if blk_.term.k != "switch":
+                        continue
+                    at_ = mf.atom(blk_.i)
+                    te_ = panic.norm(at_["test"]) if at_ else None
+                    neg_ = False
+                    while isinstance(te_, tuple) and te_[0] == "unop" and te_[1] == "Not":
+                        neg_ = not neg_
+                        te_ = te_[2]
+                    if isinstance(te_, tuple) and ((te_[0] == "binop" and te_[1] in ("Ne", "Eq")) or (te_[0] == "call" and te_[1].split("::")[-1] in ("ne", "eq"))) and at_["ty"] == "bool":
+                        is_ne = (te_[1] in ("Ne",) or te_[1].split("::")[-1] == "ne") != neg_
+                        f_succ, t_succ = dict(at_["targets"]).get(0), at_["otherwise"]
+                        ne_edges.append((blk_.i, t_succ if is_ne else f_succ))
+                if not ne_edges:
+                    ctx.violation("R-C09-2", "mirror-not-for-loops", "the mirror triplet is pushed without any test that the two positions differ: the diagonal entry of an undirected self-loop is written twice and the conversion to CSR adds the two, so the entry is twice the stored weight", loc_str(mir_[0].span))
+                if ne_edges:
+                    reach2_ = m.reach_avoiding_edges(ne_edges, 0)
+                    leak2_ = [c for c in mir_ if c.bb in reach2_]
+                    ctx.require(not leak2_, "R-C09-2", "mirror-not-for-loops", "no mirror push is reachable for a self-loop (u == v)", "a mirror triplet is pushed although u == v: the diagonal entry of a self-loop is written twice and the conversion to CSR adds the two, so the entry is twice the stored weight", loc_str(leak2_[0].span) if leak2_ else loc_str(m.span))
             ctx.require(len(mir_) >= 3, "R-C09-2", "mirror-under-undirected", "the mirror triplet (row, col, value) is pushed under specs.directed == false", "no complete mirror triplet under specs.directed == false (%d pushes)" % len(mir_), loc_str(m.span))
 
     # ------------------------------------------------------------------ R-C09-3
@@ -346,6 +438,14 @@ def run(ctx):
 
     # ------------------------------------------------------------------ R-C09-10 / R-C09-11
     formula_rules(ctx, prog, flows)
+
+    # ------------------------------------------------------------------ R-C09-12 / R-C09-13
+    from graphrules import no_edge_identity_collections
+
+    no_edge_identity_collections(ctx, prog, "R-C09-12", ("graph::",), "the per-node edge lists behind the degree functions lose parallel edges, so the degrees no longer sum to twice the number of edges")
+    degree_maps_keyed_by_node_list(ctx, prog, flows, "R-C09-13", "a node without edges is missing from the map instead of being listed with degree 0, so the map has fewer entries than number_of_nodes()")
+
+    selfloop_predicate(ctx, prog, flows, "R-C09-14", "so the degrees no longer sum to twice the number of edges")
 
     # ------------------------------------------------------------------ R-C09-9
     selfloop_term_counts_every_loop(ctx, prog, flows, "R-C09-9", "so the sum of the degrees is no longer twice the number of edges")
